@@ -20,7 +20,7 @@ Place ==
   /\ phase = "place" /\ ndev < MaxDev
   /\ \/ \E i \in Levels, v \in {"stylua", "dot", "both"} :
           sc.lv[i].toml = "none" /\ sc' = [sc EXCEPT !.lv[i].toml = v]
-     \/ \E i \in Levels, v \in {"plain", "root"} :
+     \/ \E i \in Levels, v \in {"plain", "root", "perfile"} :
           sc.lv[i].ec = "none" /\ sc' = [sc EXCEPT !.lv[i].ec = v]
      \/ \E g \in {"xdg", "xdgs", "home", "homes"} : ~sc[g] /\ sc' = [sc EXCEPT ![g] = TRUE]
   /\ ndev' = ndev + 1 /\ UNCHANGED <<targets, phase>>
@@ -33,14 +33,15 @@ Opts(o) == CASE o = "none" -> sc
              [] o = "search_parent+no_ec" -> [sc EXCEPT !.search_parent = TRUE, !.no_ec = TRUE]
              [] o = "config_path+override" -> [sc EXCEPT !.config_path = TRUE, !.override = TRUE]
 
-F(l) == [kind |-> "file", level |-> l]
+F(l) == [kind |-> "file", level |-> l, alt |-> FALSE]
 TargetsOf(t) ==
   CASE t = "f3" -> <<F(3)>> [] t = "f4" -> <<F(4)>> [] t = "f5" -> <<F(5)>>
     [] t = "f3f4" -> <<F(3), F(4)>> [] t = "f4f3" -> <<F(4), F(3)>> [] t = "f5f4" -> <<F(5), F(4)>> [] t = "f4f5" -> <<F(4), F(5)>>
-    [] t = "f3f5" -> <<F(3), F(5)>> [] t = "f5f3" -> <<F(5), F(3)>> [] t = "f4f4" -> <<F(4), [kind |-> "file", level |-> 4]>>
-    [] t = "dir" -> <<[kind |-> "dirfile", level |-> 3], [kind |-> "dirfile", level |-> 4], [kind |-> "dirfile", level |-> 5]>>
-    [] t = "stdin" -> <<[kind |-> "stdin", level |-> 3]>>
-    [] t = "stdinpath" -> <<[kind |-> "stdinpath", level |-> 4]>>
+    [] t = "f3f5" -> <<F(3), F(5)>> [] t = "f5f3" -> <<F(5), F(3)>> [] t = "f4f4" -> <<F(4), [kind |-> "file", level |-> 4, alt |-> TRUE]>>
+    [] t = "f4af4" -> <<[kind |-> "file", level |-> 4, alt |-> TRUE], F(4)>>        \* the u-named file first
+    [] t = "dir" -> <<[kind |-> "dirfile", level |-> 3, alt |-> FALSE], [kind |-> "dirfile", level |-> 4, alt |-> FALSE], [kind |-> "dirfile", level |-> 5, alt |-> FALSE]>>
+    [] t = "stdin" -> <<[kind |-> "stdin", level |-> 3, alt |-> FALSE]>>
+    [] t = "stdinpath" -> <<[kind |-> "stdinpath", level |-> 4, alt |-> FALSE]>>
 
 Choose ==
   /\ phase = "place"
@@ -51,7 +52,7 @@ Next == Place \/ Choose
 Spec == Init /\ [][Next]_vars
 
 Case == [ sc |-> sc, targets |-> targets,
-          expect |-> [k \in DOMAIN targets |-> Resolve(sc, TargetLevel(targets[k]))],
+          expect |-> [k \in DOMAIN targets |-> ResolveA(sc, TargetLevel(targets[k]), IsAlt(targets[k]))],
           impl |-> ImplHistory(sc, targets, 1, EmptyCache) ]
 Emit == phase = "done" => PrintT(<<"CASE", ToJson(Case)>>)
 DesignRefines == phase = "done" => ImplRefines(sc, targets)
